@@ -1,6 +1,7 @@
 """C15: fast-verify signing yields ordinary valid signatures, touching only the trailer."""
 from .common import *
 from check import canon
+import rfc8554 as R
 
 RULE = ("library rebuilt with the fast_verify feature under several HBS_LMS_THREADS / HBS_LMS_MAX_HASH_OPTIMIZATIONS settings; sign_mut on messages with a zero trailer for all "
         "6 hashes x W1..W8 x 1..3 levels x callback accept/reject, and on refused inputs (length <= n, non-zero trailer, malformed key); the implementation chooses the trailer, "
@@ -19,6 +20,22 @@ def run(ctx):
     for cfg in (CFGS_QUICK if ctx.tier == "quick" else CFGS_THOROUGH):
         if not ctx.open(cfg, features=["fast_verify"]):
             continue
+        # the scoring function of the optimiser (hook): real fast_verify_eval vs model vs the sum of the RFC digit vector
+        ev = []
+        for H in ALL_H:
+            n = HASHES[H]
+            for t in (1, 2, 3, 4):
+                for d in [bytes(n), b"\xff" * n, bytes(range(n))] + [rng.bytes_(n) for _ in range(6 if ctx.tier == "quick" else 60)]:
+                    ev.append(Case("fveval H=%s type=%d digest=%s" % (H, t, hx(d)), "fveval/n%d/w%d" % (n, OTS_W[t]), {"H": H, "t": t, "d": d}))
+        for c, a, b in ctx.both(ev, None):
+            H, t, d = c.meta["H"], c.meta["t"], c.meta["d"]
+            n, w = HASHES[H], OTS_W[t]
+            lib_ls = {1: 7, 2: 6, 4: 4, 8: 0}[w]
+            exp = sum(R.digits(d, n, w, lib_ls))
+            if a.startswith("panic"):
+                ctx.fail("fast_verify_eval panicked", [c.line, json.dumps(cfg)], a, "ok %d" % exp)
+            elif a != "ok %d" % exp:
+                ctx.fail("fast_verify_eval is not the total number of chain iterations of the digest", [c.line], a, "ok %d" % exp)
         specs = []
         for i, H in enumerate(ALL_H):
             n = HASHES[H]
